@@ -46,8 +46,12 @@ def units():
     Mod.bus = h.Port(width=2)
     Mod.r = h.R(r=1)(p=Mod.x, n=Mod.y)
     Mod.e = h.ExternalModule(name="U2b", port_list=[h.Inout(name="a", width=2), h.Inout(name="z")], desc="", domain="u")()(a=Mod.bus, z=Mod.x)
+    # substrate / well pins are commonly written with a leading underscore; `name` is an Instance keyword
+    EU = h.ExternalModule(name="UU", port_list=[h.Inout(name="a"), h.Inout(name="z"), h.Inout(name="_sub"),
+                                                h.Inout(name="name")], desc="", domain="u")
     return [("R", lambda: h.R(r=1), ["p", "n"]), ("Nmos", lambda: h.Nmos(), ["d", "g", "s", "b"]),
-            ("E3", lambda: E3(), ["a", "b", "c"]), ("Mod", lambda: Mod, ["x", "y"])]
+            ("E3", lambda: E3(), ["a", "b", "c"]), ("Mod", lambda: Mod, ["x", "y"]),
+            ("EU", lambda: EU(), ["a", "z", "_sub"])]
 
 
 def cases(tier):
@@ -160,6 +164,27 @@ def check_misc(case):
                 if [i.SerializeToString(deterministic=True) for i in pa.modules[-1].instances] != \
                         [i.SerializeToString(deterministic=True) for i in pb.modules[-1].instances]:
                     return ("mosstack", f"MosStack(nser={n}) differs from Series over drain and source", w)
+    if kind == "build-many-then-export":
+        # several generated modules over the same primitives / external module exist before any is exported: each must
+        # still export, and own its ports
+        E = h.ExternalModule(name="UH", port_list=[h.Inout(name="a"), h.Inout(name="z"), h.Inout(name="_sub")], desc="",
+                             domain="u")
+        made = []
+        for n in (1, 2, 3):
+            made.append(Series(unit=h.R(r=1), conns=("p", "n"), nser=n))
+            made.append(MosStack(unit=h.Nmos(), nser=n))
+            made.append(Series(unit=E(), conns=("a", "z"), nser=n))
+        made += [Wrapper(h.R(r=1)), Wrapper(h.Nmos()), Wrapper(E()), Wrapper(h.R(r=1))]
+        for m in made:
+            for pn, p in m.ports.items():
+                if p._parent_module is not m:
+                    return ("ports-not-owned", f"{m.name}: port {pn} is owned by {getattr(p._parent_module, 'name', None)}", w)
+            try:
+                h.to_proto(m)
+            except Exception as e:
+                return (f"export.raises.{type(e).__name__}", f"{m.name} (built before later generator calls over the "
+                                                             f"same unit): {type(e).__name__}: {str(e)[-140:]}", w)
+        return None
     if kind == "wrapper":
         @h.bundle
         class WB:
@@ -170,7 +195,9 @@ def check_misc(case):
         inner.o = h.Output()
         inner.b = WB(port=True)
         inner.e = h.ExternalModule(name="W5", port_list=[h.Inout(name="p", width=3), h.Inout(name="q"), h.Inout(name="r"), h.Inout(name="s", width=2)], desc="", domain="w")()(p=inner.a, q=inner.o, r=inner.b.x, s=inner.b.y)
-        for target in (inner, h.R(r=1), h.Nmos()):
+        EU = h.ExternalModule(name="WU", port_list=[h.Inout(name="a"), h.Inout(name="_sub"), h.Inout(name="name")], desc="",
+                              domain="w")
+        for target in (inner, h.R(r=1), h.Nmos(), EU()):
             wr = Wrapper(target)
             from hdl21.instantiable import io
             tio = io(target)
@@ -195,11 +222,20 @@ def run(ctx):
                     rule="Series over R, Nmos, a 3-port external module and a Module unit, every ordered pair of distinct "
                          "unit ports as the series pair, given by name and by Signal, n in {1,2,3,N}; exported package: "
                          "n units, one internal net of width n-1, unit k's ports on the nets the chain lemma names, "
-                         "all other ports on the same-named module port; distinct = distinct case; non-trivial = n>=2",
+                         "all other ports (a `_sub` pin among them) on the same-named module port; distinct = distinct case; non-trivial = n>=2",
                     bound="n<=8 (16 thorough)", key_of=repr, nontrivial=lambda c: c[3] >= 2)
-    ctx.run_bounded("series-misc", [("misc", k) for k in ("nser<1", "bad-port", "mosstack", "wrapper")], check_misc,
+    ctx.run_bounded("series-misc", [("misc", k) for k in ("nser<1", "bad-port", "mosstack", "wrapper", "build-many-then-export")],
+                    check_misc,
                     rule="rejections, MosStack == Series over (d, s), Wrapper over module with bus and bundle ports / "
-                         "primitives", bound="4 programs", key_of=repr)
+                         "primitives / an external module with `_sub` and `name` ports; 13 generated modules over the "
+                         "same units built first and exported afterwards", bound="5 programs", key_of=repr)
+    from contracts import c_instance as ci
+    key, obs, info = ci.call_obligations()
+    for u in info.get("unsupported", []):
+        ctx.unsupported.append((key, u))
+    if len(obs) < 5 and not info.get("unsupported"):
+        ctx.checker_errors.append(f"only {len(obs)} connect-by-call obligations")
+    ctx.discharge(obs, key + " [keyword loop body]", info)
     return INFO
 
 
